@@ -150,6 +150,13 @@ def valid_params(rng, name, shipped_bias=0.3):
             h, l = rng.choice([(7, 2), (9, 2), (10, 3), (13, 3)])
             return dict(h=h, w=h, lh=l, lw=l, colors=COLS, nb=1, ne=2)
         cs = rng.sample(COLS, rng.randint(2, 4))
+        if rng.random() < 0.3:
+            # crowded: agent, beacons and exits take every floor cell, or all but one (the sampling without
+            # replacement has no slack; whatever is accepted must still be winnable)
+            h, w, lh, lw, floor = rng.choice([(4, 4, 1, 1, 4), (4, 5, 1, 1, 6), (5, 4, 1, 1, 6), (5, 5, 1, 1, 9), (4, 7, 1, 2, 9), (7, 4, 2, 1, 9)])
+            ne = rng.randint(2, min(len(cs), floor - 2))
+            nb = max(1, floor - 1 - ne - rng.choice([0, 0, 1]))
+            return dict(h=h, w=w, lh=lh, lw=lw, colors=cs, nb=nb, ne=ne)
         return dict(h=rng.choice([7, 9, 10, 13]), w=rng.choice([7, 9, 10, 13]), lh=rng.randint(1, 3), lw=rng.randint(1, 3), colors=cs, nb=rng.randint(1, 2), ne=rng.randint(2, len(cs)))
     if name == 'dynamic_obstacles':
         if rng.random() < 0.12:
